@@ -125,7 +125,13 @@ fn auth_headers(a: &Auth, token: &str) -> (Vec<(String, String)>, Option<bool>) 
     match a {
         Auth::Missing => (vec![], Some(false)),
         Auth::Exact => (h(format!("Bearer {token}")), Some(true)),
-        Auth::WrongToken => (h(format!("Bearer x{}y", &token[1..token.len() - 1])), Some(false)),
+        Auth::WrongToken => {
+            // same length, first and last character replaced (a token that happens to start with 'x' and end with
+            // 'y' would otherwise come out unchanged - seen once in 12 000 cases)
+            let w = format!("x{}y", &token[1..token.len() - 1]);
+            let same = w == token;
+            (h(format!("Bearer {w}")), if same { Some(true) } else { Some(false) })
+        }
         Auth::Prefix => (h(format!("Bearer {}", &token[..token.len() - 1])), Some(false)),
         Auth::Suffix => (h(format!("Bearer {}", &token[1..])), Some(false)),
         Auth::ExtraChar => (h(format!("Bearer {token}x")), Some(false)),
